@@ -6,6 +6,7 @@ import (
 	"fmt"
 	"reflect"
 	"runtime"
+	"sort"
 	"strings"
 	"sync"
 	"time"
@@ -109,7 +110,7 @@ type Run struct {
 	Scopes     []*ScopeH // index 0: provider pseudo-scope
 	Results    []OpResult
 	Ops        []Op
-	Poisoned   bool // a panic escaped from godi: stop using this provider
+	Poisoned   bool        // a panic escaped from godi: stop using this provider
 	kept       []keptSlice // group slices returned by godi that the harness kept untouched
 	sliceFs    []Finding   // kept slices that changed afterwards
 	KeepValues bool
@@ -182,6 +183,36 @@ func NewRun(s *Spec, m *Model, faults []rt.Fault, closeFaults []rt.CloseFault) *
 	}
 	r.Scopes = []*ScopeH{{}}
 	return r
+}
+
+// EditCollectionAfterBuild removes every registered identity from the COLLECTION after the
+// provider has been built (and registers a few constructors again under identities that are
+// now free). "A provider that has been built is unaffected by later changes to the collection":
+// whatever the run observes afterwards must be what it would have observed without the edits.
+func (r *Run) EditCollectionAfterBuild() {
+	if !r.Built {
+		return
+	}
+	defer func() { _ = recover() }()
+	var iks []IdentKey
+	for ik := range r.Model.Services {
+		iks = append(iks, ik)
+	}
+	sort.Slice(iks, func(i, j int) bool { return iks[i].Type+"\x00"+iks[i].Key < iks[j].Type+"\x00"+iks[j].Key })
+	r.Rec.NoLog = true
+	defer func() { r.Rec.NoLog = false }()
+	for _, ik := range iks {
+		(Reg{Remove: true, RmType: ik.Type, RmKey: ik.Key}).AddTo(r.Coll)
+	}
+	// identities are free now: other constructors take two of them
+	for i, ik := range iks {
+		if i >= 2 {
+			break
+		}
+		if ti, ok := pool.Types[ik.Type]; ok && !ti.Iface && strings.HasPrefix(ik.Type, "K") {
+			_ = (Reg{Ctor: pool.ByName("Leaf_" + ik.Type + "_c").ID, Life: godi.Transient, Name: ik.Key}).AddTo(r.Coll)
+		}
+	}
 }
 
 func addValue(c godi.Collection, reg Reg, v any) error {
